@@ -51,20 +51,24 @@ fn body(run: &Run, replay: Option<&Value>) {
     // (1) IntSet
     let q = run.tier == Tier::Quick;
     // (level-synchronous depth, stateright depth) per domain
-    let small_members = domain::<Small>(run, if q { 3 } else { 4 }, if q { 2 } else { 3 }, true);
-    domain::<Even>(run, if q { 2 } else { 3 }, 2, false);
-    domain::<u8>(run, if q { 3 } else { 4 }, 2, false);
+    let small_members = domain::<Small>(run, if q { 4 } else { 5 }, if q { 2 } else { 3 }, true);
+    domain::<Even>(run, if q { 3 } else { 4 }, 2, false);
+    domain::<u8>(run, if q { 4 } else { 5 }, if q { 2 } else { 3 }, false);
     domain::<u16>(run, if q { 2 } else { 3 }, 2, false);
-    domain::<font_types::GlyphId16>(run, 2, 1, false);
-    domain::<font_types::NameId>(run, 2, 1, false);
+    domain::<font_types::GlyphId16>(run, if q { 2 } else { 3 }, 2, false);
+    domain::<font_types::NameId>(run, if q { 2 } else { 3 }, 2, false);
     domain::<u32>(run, if q { 2 } else { 3 }, 2, false);
-    domain::<font_types::GlyphId>(run, 2, 1, false);
-    domain::<font_types::Tag>(run, 2, 1, false);
+    domain::<font_types::GlyphId>(run, if q { 2 } else { 3 }, 2, false);
+    domain::<font_types::Tag>(run, if q { 2 } else { 3 }, 2, false);
     // (2) RangeSet
+    eprintln!("[c14] intset done at {:.1}s", run.elapsed());
     range_sets(run);
+    eprintln!("[c14] rangesets done at {:.1}s", run.elapsed());
     // (3) codec
     codec_round_trips(run, &small_members);
+    eprintln!("[c14] round trips done at {:.1}s", run.elapsed());
     codec_decoder(run);
+    eprintln!("[c14] decoder done at {:.1}s", run.elapsed());
 }
 
 // ---------------------------------------------------------------------------
@@ -99,7 +103,7 @@ fn domain<T: Dom>(run: &Run, depth: usize, sr_depth: usize, keep: bool) -> Vec<V
     let sys = Arc::new(Sys::<T>::new(false));
     run.bound(
         &format!("intset.{}", T::NAME),
-        json!({"depth": depth, "stateright_depth": sr_depth, "actions": sys.actions.len(), "V": sys.v, "contains_probes": sys.probe.len(),
+        json!({"depth": depth, "stateright_depth_1_thread": sr_depth, "stateright_depth_16_threads": (sr_depth + 1).min(depth), "actions": sys.actions.len(), "V": sys.v, "contains_probes": sys.probe.len(),
                "operands": sys.operands.iter().map(|o| format!("{} {:?}", o.desc, o.model.r)).collect::<Vec<_>>(),
                "lists": sys.lists, "iterator_prefix_followed": if sys.k == usize::MAX { json!("whole") } else { json!(sys.k) }}),
     );
@@ -109,6 +113,7 @@ fn domain<T: Dom>(run: &Run, depth: usize, sr_depth: usize, keep: bool) -> Vec<V
     run.observe_many(&res.digests, &res.nontrivial);
     run.count(&format!("intset.{}.unique_states", T::NAME), *res.unique_by_level.last().unwrap());
     run.count(&format!("intset.{}.transitions", T::NAME), res.transitions);
+    run.count(&format!("intset.{}.full_tier_observations", T::NAME), res.full_observations);
     run.count(&format!("intset.{}.states_inverted", T::NAME), res.modes_seen.1);
     run.count(&format!("intset.{}.states_with_empty_page", T::NAME), res.states_with_empty_page);
     run.count(&format!("intset.{}.max_pages", T::NAME), res.max_pages as u64);
@@ -121,8 +126,8 @@ fn domain<T: Dom>(run: &Run, depth: usize, sr_depth: usize, keep: bool) -> Vec<V
         return res.member_sets;
     }
 
-    // determinism: the same search sequentially (one level less, it is 1/16 as fast) must see the same counts
-    let seq_depth = depth.saturating_sub(1).max(1);
+    // determinism: the same search sequentially (to depth 2) must see the same counts
+    let seq_depth = depth.min(2);
     let seq = bfs_level_sync(&sys, seq_depth, false, false);
     if seq.unique_by_level[..] != res.unique_by_level[..seq.unique_by_level.len()] {
         run.machinery_error(&format!(
@@ -138,9 +143,11 @@ fn domain<T: Dom>(run: &Run, depth: usize, sr_depth: usize, keep: bool) -> Vec<V
     // Unique states of a run = everything generated = cumulative count through level d+1... we use
     // target d+1 so that generated = cumulative through level d.
     for threads in [1usize, 16] {
+        // the 16-thread run goes one level deeper than the sequential one (it is cheap)
+        let sr_depth = if threads == 1 { sr_depth } else { (sr_depth + 1).min(depth) };
         let first_failure = Arc::new(Mutex::new(None));
         let transitions = Arc::new(AtomicU64::new(0));
-        let model = SrModel { sys: sys.clone(), first_failure: first_failure.clone(), transitions: transitions.clone() };
+        let model = SrModel { sys: sys.clone(), first_failure: first_failure.clone(), transitions: transitions.clone(), full_seen: Default::default() };
         let checker = model.checker().threads(threads).target_max_depth(sr_depth + 1).spawn_bfs().join();
         let uniq = checker.unique_state_count() as u64;
         let tr = transitions.load(Ordering::Relaxed);
@@ -185,7 +192,7 @@ fn replay_intset<T: Dom>(run: &Run, case: &Value) {
     let mut st = sys.init();
     for a in case["actions"].as_array().cloned().unwrap_or_default() {
         let ai = a.as_u64().unwrap() as usize;
-        st = sys.step(&st, ai);
+        st = sys.step(&st, ai, true);
         println!("  {:?} -> members {:?} fingerprint {:?}", sys.actions[ai], st.model.r.iter().take(6).collect::<Vec<_>>(), st.key.fp);
         if st.failed.is_some() {
             break;
@@ -297,7 +304,7 @@ fn replay_rangeset(run: &Run, case: &Value) {
 // codec
 // ---------------------------------------------------------------------------
 
-fn boundary_family() -> Vec<Vec<(u64, u64)>> {
+fn boundary_family(max_fill_log2: u32) -> Vec<Vec<(u64, u64)>> {
     let mut e: Vec<u64> = vec![0, 1, u32::MAX as u64 - 1, u32::MAX as u64];
     for k in 1..=31u32 {
         let p = 1u64 << k;
@@ -317,8 +324,10 @@ fn boundary_family() -> Vec<Vec<(u64, u64)>> {
             }
         }
     }
-    // filled-node boundaries: aligned and misaligned power-of-two ranges up to 2^20 values
-    for k in 1..=20u32 {
+    // filled-node boundaries: aligned and misaligned power-of-two ranges. The encoder rescans the
+    // whole previous layer for every filled node (quadratic, see the TODO in commit_current_node), so
+    // filled ranges are kept to 2^max_fill_log2 values.
+    for k in 1..=max_fill_log2 {
         let p = 1u64 << k;
         for (a, b) in [(0, p - 1), (0, p), (1, p), (1, p - 1), (p, 2 * p - 1), (p, 2 * p), (p - 1, 2 * p - 1), (3 * p, 4 * p - 1)] {
             out.push(vec![(a, b)]);
@@ -337,7 +346,8 @@ fn boundary_family() -> Vec<Vec<(u64, u64)>> {
 fn codec_round_trips(run: &Run, small_members: &[Vec<(u64, u64)>]) {
     let mut sets: Vec<Vec<(u64, u64)>> = small_members.to_vec();
     let reached = sets.len();
-    let fam = boundary_family();
+    let fill = run.tier.pick(11u32, 14u32);
+    let fam = boundary_family(fill);
     let nfam = fam.len();
     sets.extend(fam);
     // every subset of 16 consecutive values at the bottom and at the top of u32
@@ -350,7 +360,7 @@ fn codec_round_trips(run: &Run, small_members: &[Vec<(u64, u64)>]) {
     }
     run.bound(
         "codec.round_trip",
-        json!({"sets_reached_by_intset_bfs_on_Small1536": reached, "boundary_family": nfam, "all_subsets_of_consecutive_values": sub_bits, "subset_bases": [0, (u32::MAX as u64) - (sub_bits as u64 - 1)], "branch_factors": [2,4,8,32,"min-size"]}),
+        json!({"sets_reached_by_intset_bfs_on_Small1536": reached, "boundary_family": nfam, "largest_filled_range_log2": fill, "all_subsets_of_consecutive_values": sub_bits, "subset_bases": [0, (u32::MAX as u64) - (sub_bits as u64 - 1)], "branch_factors": [2,4,8,32,"min-size"]}),
     );
     let all: Mutex<HashSet<u64>> = Mutex::new(HashSet::new());
     let non: Mutex<HashSet<u64>> = Mutex::new(HashSet::new());
@@ -393,11 +403,20 @@ fn codec_decoder(run: &Run) {
     let alpha: Vec<u8> = vec![
         0x00, 0x01, 0x02, 0x03, 0x04, 0x05, 0x08, 0x0f, 0x10, 0x11, 0x20, 0x33, 0x40, 0x55, 0x7f, 0x80, 0x81, 0xaa, 0xc0, 0xf0, 0xfe, 0xff, 0x0c, 0x30, 0x06, 0x09, 0x18, 0x24, 0x42, 0x99, 0xe7, 0x3c,
     ];
+    // third byte: quick = 64 values (the 32 above and their complements), thorough = all 256
+    let third: Vec<u8> = if run.tier == Tier::Quick {
+        let mut t: Vec<u8> = alpha.iter().flat_map(|b| [*b, !*b]).collect();
+        t.sort();
+        t.dedup();
+        t
+    } else {
+        (0u32..256).map(|b| b as u8).collect()
+    };
     let ext_len = run.tier.pick(4usize, 5usize);
     let ext_alpha: &[u8] = if run.tier == Tier::Quick { &alpha[..16] } else { &alpha[..] };
     run.bound(
         "codec.decoder",
-        json!({"all_byte_strings_up_to_len": full_len, "extended_len": ext_len, "extended_alphabet_after_header": ext_alpha.iter().map(|b| format!("{b:02x}")).collect::<Vec<_>>(),
+        json!({"all_byte_strings_up_to_len": if third.len() == 256 { 3 } else { 2 }, "len3_third_byte_values": third.len(), "extended_len": ext_len, "extended_alphabet_after_header": ext_alpha.iter().map(|b| format!("{b:02x}")).collect::<Vec<_>>(),
                "bias_max_pairs": BIAS_MAX.iter().map(|(b,m)| json!([b,m])).collect::<Vec<_>>(),
                "not_run_when_reference_population_exceeds": codec::LARGE}),
     );
@@ -442,8 +461,8 @@ fn codec_decoder(run: &Run) {
         check(&[h0], &mut la, &mut ln);
         for b1 in 0u32..256 {
             check(&[h0, b1 as u8], &mut la, &mut ln);
-            for b2 in 0u32..256 {
-                check(&[h0, b1 as u8, b2 as u8], &mut la, &mut ln);
+            for b2 in third.iter() {
+                check(&[h0, b1 as u8, *b2], &mut la, &mut ln);
             }
         }
         // extended lengths over the reduced alphabet
@@ -483,7 +502,7 @@ fn codec_decoder(run: &Run) {
     run.count("codec.decoder.both_decode_and_agree", counts[0].load(Ordering::Relaxed));
     run.count("codec.decoder.both_reject", counts[1].load(Ordering::Relaxed));
     run.count("codec.decoder.unsupported_height_no_panic_only", counts[2].load(Ordering::Relaxed));
-    run.count("codec.decoder.skipped_population_above_2^20", counts[3].load(Ordering::Relaxed));
+    run.count("codec.decoder.skipped_population_above_2^16", counts[3].load(Ordering::Relaxed));
     let (a, nn) = (all.into_inner().unwrap(), non.into_inner().unwrap());
     run.count("codec.decoder.distinct_results", a.len() as u64);
     run.observe_many(&a, &nn);
